@@ -20,11 +20,12 @@
 (* is skipped, so a quoted word ending in an escaped backslash ("a\\") is          *)
 (* unterminated or mis-scanned (Lexer_asbuilt.cfg shows the counterexample).       *)
 (*                                                                                 *)
-(* One state per text; Next appends one character, so TLC walks the tree of all    *)
-(* texts up to the bound in parallel and checks the invariants on each.            *)
+(* One state per text; Next appends one chunk (a character, or in the token        *)
+(* configurations a whole word / operator / keyword), so TLC walks all texts up    *)
+(* to the bound in parallel and checks the invariants on each.                     *)
 EXTENDS Integers, Sequences, FiniteSets, TLC
 
-CONSTANTS Alphabet, Core, MaxLen, CoreLen, QuoteEndsAtBackslashQuote
+CONSTANTS Alphabet, Chunks, MaxChunks, Core, MaxLen, CoreLen, WordLen, PairLen, QuoteEndsAtBackslashQuote
 
 SP == " "   DQ == "\""  BS == "\\"  LP == "("   RP == ")"   COL == ":"
 AT == "@"   COM == ","  DASH == "-" STAR == "*" SL == "/"
@@ -32,6 +33,14 @@ BEL == "^G"      \* the character denoted by \a; never occurs in a text, only in
 
 FullAlphabet == {"a", SP, DQ, BS, LP, RP, COL, AT, COM, DASH, STAR, SL, "O", "R", "A", "N", "D"}
 CoreAlphabet == {"a", SP, DQ, BS, LP, RP, COL, AT, SL}
+\* Next appends one chunk.  Character exploration: every chunk is one character of the alphabet.
+CharChunks == {<<c>> : c \in FullAlphabet}
+\* Token exploration (longer, structured texts): whole words, operators and keywords as chunks.
+TokenChunks == {<<"a">>, <<DQ, "a", DQ>>, <<DQ, BS, BS, DQ>>, <<SL, "a", SL>>, <<COL>>, <<LP>>, <<RP>>, <<SP>>,
+                <<SP, "O", "R", SP>>, <<SP, "A", "N", "D", SP>>, <<DASH>>, <<STAR>>, <<COM>>, <<AT>>,
+                <<"a", COL, "a">>, <<"a", COL, LP, "a">>, <<"a", AT, LP, "a">>}
+TokenChunksCore == {<<"a">>, <<DQ, "a", DQ>>, <<DQ, BS, BS, DQ>>, <<SL, "a", SL>>, <<COL>>, <<LP>>, <<RP>>, <<SP>>,
+                    <<SP, "O", "R", SP>>, <<DASH>>, <<AT>>, <<"a", COL, "a">>}
 
 IsOp(c)      == c \in {LP, RP, COL, AT, COM}
 IsStartOp(c) == IsOp(c) \/ c \in {DASH, STAR}
@@ -439,36 +448,53 @@ OProj(s, bq) ==
   [ok |-> r.err = -1, fs |-> r.fs, err |-> r.err, dec |-> r.dec]
 
 (* ------------------------------ exploration ------------------------------ *)
-VARIABLE text
-Init == text = <<>>
+VARIABLES text,    \* the expression text
+          nchunks  \* number of chunks it was built from (bounds the token exploration)
+vars == <<text, nchunks>>
+Init == text = <<>> /\ nchunks = 0
 Allowed(t) == Len(t) <= MaxLen \/ (Len(t) <= CoreLen /\ \A i \in 1..Len(t) : t[i] \in Core)
-Next == \E c \in Alphabet : Allowed(Append(text, c)) /\ text' = Append(text, c)
-Spec == Init /\ [][Next]_text
+Next == /\ nchunks < MaxChunks
+        /\ \E c \in Chunks : Allowed(text \o c) /\ text' = text \o c
+        /\ nchunks' = nchunks + 1
+Spec == Init /\ [][Next]_vars
 
 BQ == QuoteEndsAtBackslashQuote
 
 (* ------------------------------ properties ------------------------------ *)
 TypeOK == text \in Seq(Alphabet) /\ Allowed(text)
 
+\* A violated conjunct of TextProps names itself in TLC's output.
+Holds(name, cond) == cond \/ (PrintT(<<"violated conjunct", name>>) /\ FALSE)
+PickTree(R) == IF R = {} THEN [ok |-> FALSE, t |-> NoTree] ELSE [ok |-> TRUE, t |-> CHOOSE x \in R : TRUE]
+PickFlds(R) == IF R = {} THEN [ok |-> FALSE, fs |-> <<>>] ELSE [ok |-> TRUE, fs |-> CHOOSE x \in R : TRUE]
+
 \* the documented grammar is unambiguous and contained in the lenient one
-Unambiguous ==
-  /\ Cardinality(DFilterSet(text, FALSE)) <= 1 /\ Cardinality(DFilterSet(text, TRUE)) <= 1
-  /\ Cardinality(DProjSet(text, FALSE)) <= 1   /\ Cardinality(DProjSet(text, TRUE)) <= 1
-  /\ DFilterSet(text, FALSE) \subseteq DFilterSet(text, TRUE)
-  /\ DProjSet(text, FALSE) \subseteq DProjSet(text, TRUE)
-
+UnambiguousP(fS, fL, pS, pL) ==
+  /\ Cardinality(fS) <= 1 /\ Cardinality(fL) <= 1 /\ Cardinality(pS) <= 1 /\ Cardinality(pL) <= 1
+  /\ fS \subseteq fL /\ pS \subseteq pL
 \* the code's algorithm decides exactly the (lenient) declarative language and builds the same tree
-FilterAgree == LET d == DFilter(text, TRUE)  o == OFilter(text, BQ) IN
-  o.ok = d.ok /\ (d.ok => o.t = d.t)
-ProjAgree == LET d == DProj(text, TRUE)  o == OProj(text, BQ) IN
-  o.ok = d.ok /\ (d.ok => o.fs = d.fs)
+FilterAgreeP(d, o) == o.ok = d.ok /\ (d.ok => o.t = d.t)
+ProjAgreeP(d, o)   == o.ok = d.ok /\ (d.ok => o.fs = d.fs)
+\* a rejected text gets an error offset inside the text
+ErrorOffsetP(s, o) == ~o.ok => o.err \in 0..Len(s)
 
-ErrorOffsetInText ==
-  LET f == OFilter(text, BQ)  p == OProj(text, BQ) IN
-  /\ (~f.ok => f.err \in 0..Len(text))
-  /\ (~p.ok => p.err \in 0..Len(text))
+\* all text-level properties, sharing one evaluation of each parser
+TextProps ==
+  LET fS == DFilterSet(text, FALSE)   fL == DFilterSet(text, TRUE)
+      pS == DProjSet(text, FALSE)     pL == DProjSet(text, TRUE)
+      of == OFilter(text, BQ)         op == OProj(text, BQ)
+  IN /\ Holds("Unambiguous", UnambiguousP(fS, fL, pS, pL))
+     /\ Holds("FilterAgree", FilterAgreeP(PickTree(fL), of))
+     /\ Holds("ProjAgree", ProjAgreeP(PickFlds(pL), op))
+     /\ Holds("ErrorOffsetInText", ErrorOffsetP(text, of) /\ ErrorOffsetP(text, op))
+     /\ Holds("MeasureDecreases", of.dec /\ op.dec)
 
-MeasureDecreases == OFilter(text, BQ).dec /\ OProj(text, BQ).dec
+\* the same properties one by one (for reading and for targeted runs)
+Unambiguous == UnambiguousP(DFilterSet(text, FALSE), DFilterSet(text, TRUE), DProjSet(text, FALSE), DProjSet(text, TRUE))
+FilterAgree == FilterAgreeP(DFilter(text, TRUE), OFilter(text, BQ))
+ProjAgree   == ProjAgreeP(DProj(text, TRUE), OProj(text, BQ))
+ErrorOffsetInText == ErrorOffsetP(text, OFilter(text, BQ)) /\ ErrorOffsetP(text, OProj(text, BQ))
+MeasureDecreases  == OFilter(text, BQ).dec /\ OProj(text, BQ).dec
 
 \* the unquoting of a quoted word re-quotes to the same body (Unq inverse of Quote)
 UnquoteInverse == LET u == Unq(text) IN u.ok => QuoteBody(u.w) = text
@@ -485,9 +511,12 @@ QuotedWordLexes ==
     /\ OneWordO(q, FALSE, w) /\ OneWordO(q, TRUE, w)
 
 \* Parse(Quote(k) ":" Quote(v)) denotes (k, v); Quote(k) as a projection denotes field k
-\* (all splits text = k \o v, also with "a" read as BEL)
+\* (all splits text = k \o v for texts up to PairLen, the middle split beyond; also with "a" read as
+\* BEL; texts longer than WordLen are left to QuotedWordLexes, which covers every text)
+Splits(w) == IF Len(w) <= PairLen THEN 0..Len(w) ELSE {Len(w) \div 2}
 QuotedTermDenotes ==
-  \A w \in {text, BelSub(text)} : \A i \in 0..Len(w) :
+  Len(text) <= WordLen =>
+  \A w \in {text, BelSub(text)} : \A i \in Splits(w) :
     LET k == SubSeq(w, 1, i)
         v == SubSeq(w, i+1, Len(w))
         e == Quote(k) \o <<COL>> \o Quote(v)
@@ -507,6 +536,7 @@ BareShape(w) == /\ Len(w) > 0 /\ ~IsStartOp(w[1]) /\ w[1] # DQ /\ ~IsSpace(w[1])
                 /\ \A i \in 1..Len(w) : ~IsSpace(w[i]) /\ ~IsOp(w[i])
                 /\ w # W_AND /\ w # W_OR
 BareWordDenotes ==
+  Len(text) <= WordLen =>
   \A i \in 1..Len(text)-1 :
     LET k == SubSeq(text, 1, i)
         v == SubSeq(text, i+1, Len(text))
@@ -525,7 +555,7 @@ RejF(e) == ~DFilter(e, TRUE).ok /\ ~OFilter(e, BQ).ok
 RejP(e) == ~DProj(e, TRUE).ok /\ ~OProj(e, BQ).ok
 IsOneWord(s) == LET t == DTok(s, 1, FALSE) IN IsWordK(t.k) /\ t.e = Len(s) + 1 /\ Len(s) > 0 /\ ~IsSpace(s[1])
 MalformedRejected ==
-  IsOneWord(text) =>
+  (Len(text) <= WordLen /\ IsOneWord(text)) =>
     LET W == text
         X == <<"a", COL, "a">>
     IN /\ RejF(W)                               \* term lacking ":"
